@@ -70,7 +70,9 @@ def run(ctx, res):
         cases.append(c)
     drex.variant_checks(res, rng, ctx, "published_equations")
     oi = [drex.call_derivatives(c) for c in cases]
-    oj = drex.run_jit(cases)
+    band = _guard_band_cases(ctx, np.random.default_rng(ctx["seed"] + 2020))
+    oj_all = drex.run_jit(cases + [c for c, _ in band])      # one compiled worker for both batches
+    oj, oj_band = oj_all[:len(cases)], oj_all[len(cases):]
     ml = C.run_driver([drex.case_line(c) for c in cases])
     # K1 table (public function), exact
     for ph in (0, 1, 2, -1):
@@ -145,6 +147,67 @@ def run(ctx, res):
             res.sample({"phase": c["phase"], "fabric": c["fabric"], "regime": c["regime"], "n": c["n"], "kinds": c["kinds"],
                         "p": c["p"], "n_exp": c["nexp"], "lambda": c["lam"], "M": c["M"], "phi": c["phi"],
                         "max|impl - published|": C.maxdiff(spec, wa)})
+    _guard_band(res, band, oj_band)
+
+
+def _guard_band_cases(ctx, rng):
+    """inputs just INSIDE the domain of C02: grains tilted 1e-9 ... 1e-3 rad off a symmetry position of an axis-aligned strain
+    rate, so that the largest slip activity max|I_s/tau_s| lies between 1e-9 (the property's boundary) and 1e-3. The published
+    equations only involve activity RATIOS, so they are as well conditioned there as anywhere; a guard that is wider than the
+    documented one (an absolute tolerance, an isclose) silently zeroes these grains."""
+    from scipy.spatial.transform import Rotation
+
+    cases = []
+    for k in range(40 if not ctx["thorough"] else 400):
+        c = drex.make_case(rng, k, nmax=1)
+        d = rng.normal(size=3)
+        d -= d.mean() * float(rng.random() < 0.7)          # mostly trace-free
+        D = np.diag(d / np.abs(d).max())
+        W = rng.normal(size=(3, 3)) * float(rng.random() < 0.7)
+        L = D + (W - W.T) / 2
+        delta = float(10 ** rng.uniform(-9, -3))
+        tilt = Rotation.from_rotvec(delta * rng.normal(size=3) * 3).as_matrix()
+        A = drex.signed_perm(rng) @ tilt
+        others = drex.rotations(rng, 2, "random")
+        c.update(n=3, A=np.ascontiguousarray(np.concatenate([A[None], others])), f=rng.dirichlet(np.ones(3)), D=D, L=L,
+                 M=float(rng.choice([50.0, 125.0, 200.0])))
+        cases.append((c, delta))
+    return cases
+
+
+def _guard_band(res, cases, oj):
+    oi = [drex.call_derivatives(c) for c, _ in cases]
+    for (c, delta), a, b in zip(cases, oi, oj):
+        cond = drex.conditioning(c)
+        keys = np.sort(np.array(cond["keys"][0]))
+        top = keys[-1]
+        res.evaluations += 1
+        if top < 2e-9 or top > 1e-2:
+            res.count("guard_band:outside_band")
+            continue
+        if c["phase"] == 0 and any(np.any(np.diff(np.sort(kk)) < 1e-6 * np.max(kk)) for kk in cond["keys"]):
+            res.count("guard_band:excluded(tie in slip activity)")
+            continue
+        if c["phase"] == 1 and any(abs(kk[3]) < 1e-12 for kk in cond["keys"]):
+            res.count("guard_band:excluded(enstatite system below its documented 1e-15 guard)")
+            continue
+        res.count("guard_band:max_activity:1e%d" % int(np.floor(np.log10(top))))
+        res.nontrivial(("guard_band", c["A"].tobytes(), c["L"].tobytes(), c["fabric"]))
+        rep = {"phase": c["phase"], "fabric": c["fabric"], "regime": c["regime"], "A": c["A"].tolist(), "f": c["f"].tolist(), "L": c["L"].tolist(),
+               "params": [c["p"], c["nexp"], c["lam"], c["M"], c["phi"]], "tilt_rad": delta, "max_activity_of_grain_0": float(top)}
+        damp = 1.0 if c["regime"] == 4 else 0.3
+        rots, Es = zip(*[_spec_python(c, g) for g in range(c["n"])])
+        Ebar = float((c["f"] * np.array(Es)).sum())
+        spec = np.concatenate([np.array([damp * r for r in rots]).ravel(), c["phi"] * c["M"] * c["f"] * damp * (Ebar - np.array(Es))])
+        for tag, o in (("interpreted", a), ("jit", b)):
+            if o[0] != "ok":
+                res.violation("guard_band:raised", f"derivatives ({tag}) raised {o[1]} for a grain with max activity {top:.2e}", rep)
+                continue
+            w = np.concatenate([np.asarray(o[1]).ravel(), np.asarray(o[2])])
+            if not np.allclose(w, spec, rtol=1e-7, atol=1e-7 * max(1.0, float(np.abs(spec).max()))):
+                res.violation("guard_band:differs_from_published_equations",
+                              f"({tag}) grain 0 tilted {delta:.1e} rad off a symmetry position (max slip activity {top:.2e} >= 1e-9, inside the "
+                              f"property's domain): rates differ from the published equations by {float(np.abs(w - spec).max()):.3e}", rep)
 
 
 def replay(data):
